@@ -3,7 +3,7 @@ from __future__ import annotations
 
 from typing import Any, Dict, List
 
-from sim.gen_worker import duration, gen_worker_script
+from sim.gen_worker import duration, gen_worker_script, tier_knobs
 from sim.rng import stream
 from sim.worker_world import FRAMEWORK_LABELS
 from ._wcommon import (ASSUMPTIONS, COMPONENTS_REAL, COMPONENTS_STUB, Hist, Violation, default_nontrivial,  # noqa: F401
@@ -39,7 +39,7 @@ def gen(rs: int, tier: str, index: int) -> dict:
     r = stream(rs, "c11")
     kn = dict(KNOBS)
     kn["retry"] = {"count": r.randint(0, 6), "label": r.random() < 0.5, "no_result_on_retry": r.random() < 0.5}
-    s = gen_worker_script(rs, kn)
+    s = gen_worker_script(rs, tier_knobs(kn, tier, index))
     for m in s["messages"]:
         if m.get("kind", "valid") != "valid":
             continue
